@@ -389,7 +389,7 @@ pub fn run(args: &Args) -> i32 {
          real loopback UDP servers in real time with T in {300, 400} ms. Every datagram carries a unique id. distinct_nontrivial = distinct histories.",
     ));
     rep.assume("expiry is only asserted after 2T + 250 ms without activity on every flow; waits whose overshoot exceeds 150 ms make the history inconclusive");
-    rep.assume("loopback UDP does not lose datagrams at these rates; the SOCKS5 UDP path is exercised by C15");
+    rep.assume("loopback UDP does not lose datagrams at these rates; the SOCKS5 forwarder's multiplexer is driven by seeded histories of its own (props/c07_s5.rs) against a relaying SOCKS5 proxy");
     let seed = args.seed;
     if let Some(i) = args.extra.iter().position(|x| x == "--history") {
         // debugging aid: one history with the library's log
@@ -425,6 +425,8 @@ pub fn run(args: &Args) -> i32 {
         out
     });
     for rs in results { for r in rs { merge(&rep, r); } }
+    // the same clauses through the real SOCKS5 forwarder and a relaying proxy
+    crate::props::c07_s5::run_part(&rep, args);
     rep.finish()
 }
 
